@@ -127,7 +127,8 @@ def run(ctx) -> list[Inst]:
                 continue
             # documented conditional sinks
             kinds = {s for _, s in sinks.values()}
-            exc = [k for k in kinds if (f.name, k) in CONDITIONAL_SINK_OK]
+            gname = fname.split('.')[-1]
+            exc = [k for k in kinds if (gname, k) in CONDITIONAL_SINK_OK]
             if exc and kinds <= set(exc) | {'entry_points.append', 'add_entry_point'}:
                 # the exception covers exactly the already-exists guard in front of the sink: reaching that
                 # guard counts as reaching the sink; any other way back to the loop header is a dropped element
@@ -137,7 +138,7 @@ def run(ctx) -> list[Inst]:
                 bad2 = _path_avoiding(cfg, h, set(sinks) | guards) if guards else bad
                 if bad2 is None:
                     insts.append(Inst(RULE, fname, construct + ' [documented exception]', 'info',
-                                      msg=CONDITIONAL_SINK_OK[(f.name, exc[0])], file=rel, line=h.lineno,
+                                      msg=CONDITIONAL_SINK_OK[(gname, exc[0])], file=rel, line=h.lineno,
                                       props=props, nontrivial=False))
                     continue
                 bad = bad2
